@@ -11,9 +11,11 @@ import DebInspector.Props.C05
 import DebInspector.Props.C06
 import DebInspector.Props.C07
 import DebInspector.Props.C08
+import DebInspector.Props.C09
 import DebInspector.Props.C10
 import DebInspector.Props.C11
 import DebInspector.Props.C12
+import DebInspector.Props.C13
 import DebInspector.Props.C14
 import DebInspector.Props.C15
 import DebInspector.Props.C16
@@ -38,9 +40,12 @@ def dispatch (op : String) (v : Val) : Option Val :=
   | "C07" => Props.C07.check.run v
   | "C08" => Props.C08.check.run v
   | "C08m" => Props.C08.checkM.run v
+  | "C09" => Props.C09.check.run v
   | "C10" => Props.C10.check.run v
   | "C11" => Props.C11.check.run v
   | "C12" => Props.C12.check.run v
+  | "C13" => Props.C13.check.run v
+  | "C13k" => Props.C13.checkK1.run v
   | "C14" => Props.C14.check.run v
   | "C14e" => Props.C14.checkE.run v
   | "C15" => Props.C15.check.run v
